@@ -15,7 +15,13 @@ import itertools
 import math
 from fractions import Fraction
 
-import numpy as np
+import os
+
+# small dense matrices only: BLAS threads cost more than they give and oversubscribe a shared machine
+for _v in ('OPENBLAS_NUM_THREADS', 'OMP_NUM_THREADS', 'MKL_NUM_THREADS'):
+    os.environ.setdefault(_v, '1')
+
+import numpy as np  # noqa: E402
 
 from common import Stream, budget, rng_for, to_gq, from_gq
 
@@ -39,8 +45,6 @@ OPEN_STATEMENTS = [
     'only ffft_spec_partial (index recursion = DFT exponent table for every factor list) is proved — the prime-size blocks are '
     'bogoliubov_transform circuits (C11); the extension from the one-particle sector to the full Fock space (U a^_k U^-1 as an '
     'operator identity) and the normalisation 2^{-M/2} are the oracle',
-    'swap_network: the number of callback calls n(n-1)/2 is implied by swap_network_pair_once + swap_network_calls_adjacent '
-    'but not stated as a separate theorem',
 ]
 ASSUMPTIONS = [
     'cirq.unitary / cirq.Circuit.unitary, scipy.linalg.expm and numpy are trusted numerical kernels (abs. tol. 1e-9)',
@@ -452,6 +456,9 @@ def gates_stream(ctx, lad):
                 r += [rat(p[0]), rat(p[1])]
                 gs.append(gqj(*u))
             cmp_later(case, 'Quartic', U, model('quartic', r, gs))
+            if all(float(w.real * 1024).is_integer() and float(w.imag * 1024).is_integer() for w in ws):
+                cmp_later(case, 'Quartic.qubit_generator_matrix', np.asarray(g.qubit_generator_matrix),
+                          model('quarticGenerator', [], [to_gq(w) for w in ws]))
             Hdoc = -(fermi_H(4, {((0, 1), (3, 1), (1, 0), (2, 0)): ws[0]})
                      + fermi_H(4, {((0, 1), (2, 1), (1, 0), (3, 0)): ws[1]})
                      + fermi_H(4, {((0, 1), (1, 1), (2, 0), (3, 0)): ws[2]}))
@@ -500,6 +507,11 @@ def gates_stream(ctx, lad):
             if mode == 'general':
                 cmp_later(case, 'Cubic.qubit_generator_matrix (general weights)', np.asarray(g.qubit_generator_matrix),
                           model('cubicGenerator', [], [to_gq(w) for w in wts]))
+                okq, gq4 = safe(st, 'QuarticFermionicSimulationGate', case,
+                                lambda: of.QuarticFermionicSimulationGate(wts, exponent=t))
+                if okq:
+                    cmp_later(case, 'Quartic.qubit_generator_matrix (dyadic weights)', np.asarray(gq4.qubit_generator_matrix),
+                              model('quarticGenerator', [], [to_gq(w) for w in wts]))
             if mode == 'single' and wk != 0:
                 cmp_later(case, 'Cubic(single weight)', U,
                           model('cubicSingle', [rat(p0[0]), rat(p0[1])], [gqj(*u0)], k))
